@@ -302,13 +302,13 @@ def gen(rng, tier):
     depth = 4 if tier == "quick" else 5
     for n in range(1, depth + 1):
         for word in itertools.product(range(len(ALPHABET)), repeat=n):
-            if n == depth and rng.random() > (0.05 if tier == "quick" else 0.5):
+            if n == depth and rng.random() > (0.05 if tier == "quick" else 0.06):
                 continue
             ops = [ALPHABET[a] for a in word] + [["snap"], ["adv", 1], ["snap"], ["adv", 3], ["snap"]]
             cases.append({"k": 1, "ops": ops, "bodies": EXH_BODIES if word[0] % 2 == 0 else []})
-    for _ in range(220 if tier == "quick" else 12000):
+    for _ in range(220 if tier == "quick" else 4000):
         cases.append(rand_case(rng, rng.randrange(5, 60)))
-    for _ in range(70 if tier == "quick" else 3000):      # negative delays / advances: the code accepts them
+    for _ in range(70 if tier == "quick" else 1000):      # negative delays / advances: the code accepts them
         cases.append(rand_case(rng, rng.randrange(5, 40), neg=True))
     return cases
 
@@ -389,7 +389,7 @@ SPEC = Spec(
     model_equal=lambda c, impl_obs, model_obs: digest(impl_obs) == model_obs,
     nontrivial=lambda c, o: "(r" in o,
     histogram=histogram,
-    rule="every history of length <= 4 (quick; the longest length sampled 5%) / <= 5 (thorough, longest 50%) over a "
+    rule="every history of length <= 4 (quick; the longest length sampled 5%) / <= 5 (thorough, longest 6%) over a "
          "9-letter alphabet {callLater 0/1/2, advance 1, cancel #0, reset #1 +1, reset #0 +0, delay #0 +1, delay #1 -1} "
          "with and without a fixed table of call bodies (nested callLater/reset/cancel/delay), each followed by "
          "snapshots and two advances; random histories of 5-60 operations with random body tables, scales 2^0..2^-20, "
